@@ -6,7 +6,7 @@ mod e2;
 #[cfg(all(feature = "hooks", not(feature = "conc")))]
 mod e4;
 mod evid;
-#[cfg(feature = "memchk")]
+#[cfg(all(feature = "memchk", not(feature = "conc")))]
 mod e1mem;
 #[cfg(feature = "memchk")]
 mod memchk;
@@ -96,14 +96,7 @@ fn main() {
             // run one recorded case in this process (the caller interprets a crash)
             let p = path.unwrap_or_else(|| usage());
             let v = evid::read_replay(std::path::Path::new(&p));
-            match e1mem::rerun(&v.case) {
-                Some(Some((oracle, msg, step))) => {
-                    println!("CASE-VIOLATION oracle={oracle} step={step}: {msg}");
-                    std::process::exit(1)
-                }
-                Some(None) => std::process::exit(0),
-                None => std::process::exit(2),
-            }
+            std::process::exit(props::run_case_inproc(&v))
         }
         "replay" => {
             let p = path.unwrap_or_else(|| usage());
@@ -111,6 +104,11 @@ fn main() {
         }
         _ => usage(),
     }
+}
+
+#[cfg(feature = "memchk")]
+fn read_c23_progress(w: usize) -> Option<serde_json::Value> {
+    serde_json::from_str(&std::fs::read_to_string(evid::verif_root().join("target").join(format!("c23-progress-{w}.json"))).ok()?).ok()
 }
 
 /// Spawn one worker process per core; merge; write evidence.
@@ -180,18 +178,20 @@ fn coordinator(id: &str, tier: &str) -> i32 {
                 if id == "C23" {
                     // a worker that crashed (SIGSEGV, abort) under the monitoring allocator is a
                     // finding about the case it was running, not a machinery failure
-                    if let Some(c) = e1mem::read_progress(w) {
-                        let name = c.pointer("/case/program/name").and_then(|x| x.as_str()).unwrap_or("?").to_string();
+                    if let Some(c) = read_c23_progress(w) {
+                        let name = c.pointer("/case/program/name").or_else(|| c.pointer("/scenario/name")).and_then(|x| x.as_str()).unwrap_or("?").to_string();
                         let mut case = c.clone();
-                        case["engine"] = serde_json::json!("e1-mem");
-                        case["config"] = serde_json::json!("mem");
+                        if case.get("engine").is_none() {
+                            case["engine"] = serde_json::json!("e1-mem");
+                            case["config"] = serde_json::json!("mem");
+                        }
                         viols.push(evid::Viol {
                             property: "C23".into(),
                             signature: format!("C23:crash:{name}"),
                             what: format!("the process running this case died with {:?}", o.status),
                             case,
                         });
-                        e1mem::clear_progress(w);
+                        let _ = std::fs::remove_file(evid::verif_root().join("target").join(format!("c23-progress-{w}.json")));
                         continue;
                     }
                 }
